@@ -62,7 +62,10 @@ def gen_config(rnd, *, seg=None, ndim=None, allow_optional=True, per_axis=True, 
         cfg["shape"] = [4, 6, 6] if ndim == 4 else rnd.choice([[8, 8], [9, 7], [10, 10]])
         if big_frames and rnd.random() < 0.5:
             cfg["shape"] = [5, 8, 9] if ndim == 4 else rnd.choice([[18, 17], [20, 12]])
-        cfg["seg_dtype"] = rnd.choice(["int64", "int32", "uint16", "uint64", "uint32"])
+            if rnd.random() < 0.35:
+                # frames of more than 1024 elements (thresholds of "small frame" shortcuts)
+                cfg["shape"] = [6, 14, 13] if ndim == 4 else rnd.choice([[36, 30], [25, 45]])
+        cfg["seg_dtype"] = rnd.choice(["int64", "int32", "uint16", "uint64", "uint32", "uint16", "uint8"])
         # the constructor accepts pos_attr=[axes] together with a segmentation (the computed
         # centroid replaces it) - the per-axis attributes then just stay on the nodes
         cfg["seg_stale_axes"] = rnd.random() < 0.15
@@ -113,10 +116,20 @@ def gen_init(rnd, cfg=None, *, max_nodes=10, need_edges=False) -> dict:
     n = rnd.choice([0, 1, 2]) if rnd.random() < 0.08 and not need_edges else rnd.randint(3, max_nodes)
     ids = []
     cur = rnd.choice([0, 0, 0, 5, 40]) if rnd.random() < 0.5 else 0
-    if not cfg["seg"] and rnd.random() < 0.25:
+    id_max = int(np.iinfo(cfg["seg_dtype"]).max) if cfg["seg"] else 2**62
+    if rnd.random() < 0.15:
+        # large ids: beyond one / two bytes, near the limits of the label dtype (products and
+        # codes built from labels overflow there), around 2**16 and 2**20
+        bases = [b for b in (200, 250, 4000, 65300, 65500, 70000, 1_000_000) if b + 40 < id_max]
+        if not cfg["seg"]:
+            bases += [2**31 - 20, 2**40]
+        cur = rnd.choice(bases)
+    if not cfg["seg"] and rnd.random() < 0.25 and cur == 0:
         cur = -1  # node id 0 is a valid id when there is no label image
     for _ in range(n):
         cur += rnd.choice([1, 1, 1, 2, 3, 7])
+        if cur > id_max:
+            break  # the label dtype has no room for more ids
         ids.append(cur)
     times = sorted(rnd.randint(0, frames - 1) for _ in range(n))
     nodes = []
@@ -153,7 +166,11 @@ def gen_init(rnd, cfg=None, *, max_nodes=10, need_edges=False) -> dict:
             children[parent["id"]] = children.get(parent["id"], 0) + 1
     # parents that were skipped (frame full) cannot happen: parents are taken from ``nodes``
     return {"cfg": cfg, "nodes": nodes,
-            "id_offsets": [rnd.randint(0, 6) + (300 if rnd.random() < 0.2 else 0), rnd.randint(0, 6)]}
+            "id_offsets": [rnd.randint(0, 6) + (300 if rnd.random() < 0.2 else 0),
+                           rnd.randint(0, 6) + (300 if rnd.random() < 0.2 else 0)],
+            # order in which nodes enter the graph and in which pre-existing ids are handed to
+            # the tracklets / lineages (None: sorted by node id, increasing ids)
+            "perm_seed": rnd.randint(1, 10**6) if rnd.random() < 0.5 else None}
 
 
 def _place_boxes(rnd, shape, occ, near=None, thick=False):
@@ -248,7 +265,14 @@ class World:
         if cfg["seg"]:
             seg = np.zeros((self.frames, *self.shape), dtype=cfg["seg_dtype"])
         axes = ["z", "y", "x"][-(self.ndim - 1):]
-        for nd in init["nodes"]:
+        order = list(init["nodes"])
+        perm = None
+        if init.get("perm_seed") is not None:
+            import random as _random
+
+            perm = _random.Random(int(init["perm_seed"]))
+            perm.shuffle(order)
+        for nd in order:
             attrs = {self.time_key: nd["t"], CUSTOM_NODE: nd[CUSTOM_NODE], CUSTOM_REQ: int(nd["id"]) % 5}
             if cfg["seg"]:
                 m = box_mask(self.shape, nd["boxes"])
@@ -263,7 +287,7 @@ class World:
             else:
                 attrs[cfg["pos_key"]] = list(nd["pos"])
             g.add_node(nd["id"], **attrs)
-        for nd in init["nodes"]:
+        for nd in order:
             if nd["parent"] is not None:
                 g.add_edge(nd["parent"], nd["id"], **{CUSTOM_EDGE: nd[CUSTOM_EDGE]})
         tkey = cfg["tracklet_key"] or "track_id"
@@ -271,10 +295,16 @@ class World:
         if cfg["route"] in ("ids", "from_tracks_ids", "from_tracks_partial_ids"):
             # valid, non-contiguous ids already on the graph -> detected, not recomputed
             o1, o2 = init["id_offsets"]
-            for i, cls in enumerate(sorted(refs.tracklets(g.nodes, g.edges), key=lambda c: min(c))):
+            tcls = sorted(refs.tracklets(g.nodes, g.edges), key=lambda c: min(c))
+            lcls = sorted(refs.lineages(g.nodes, g.edges), key=lambda c: min(c))
+            trank, lrank = list(range(len(tcls))), list(range(len(lcls)))
+            if perm is not None:  # ids in no particular order along the node sequence
+                perm.shuffle(trank)
+                perm.shuffle(lrank)
+            for i, cls in zip(trank, tcls):
                 for n in cls:
                     g.nodes[n][tkey] = o1 + 2 * i  # 0-based ids occur (o1 == 0)
-            for i, cls in enumerate(sorted(refs.lineages(g.nodes, g.edges), key=lambda c: min(c))):
+            for i, cls in zip(lrank, lcls):
                 for n in cls:
                     g.nodes[n][lkey] = o2 + 3 * i
         if cfg.get("seg_axes"):
@@ -545,7 +575,8 @@ def _unused_node_id(world, rnd):
     if r < 0.8:
         return top + rnd.randint(1, 6)
     # a gap below the maximum, if any
-    free = [i for i in range(1, top) if i not in set(nodes)]
+    used = set(nodes)
+    free = [i for i in range(max(1, top - 300), top) if i not in used]
     return _pick(rnd, free) if free else top + 1
 
 
@@ -745,14 +776,35 @@ def _gen_add_node(world, rnd, bad) -> dict:
         for i, k in enumerate(pk):
             if i != drop:
                 attrs[k] = round(rnd.random() * 5, 2)
+    bad_pixels = None
     if bad:
         r = rnd.random()
         if r < 0.2:
             attrs.pop(world.time_key)
         elif r < 0.4:
             attrs.pop(world.tkey)
-    return {"op": "add_node", "node": node, "attrs": attrs, "pixels": pixels,
-            "force": rnd.random() < 0.45}
+        elif r < 0.62:
+            # pixels that cannot be written: no label image to write to, an index outside the
+            # frame, a node id the label dtype cannot hold
+            if tr.segmentation is None:
+                pixels = [[t], *[[rnd.randint(0, s - 1)] for s in world.shape]]
+                bad_pixels = "no_segmentation"
+            elif pixels is not None:
+                top = int(np.iinfo(tr.segmentation.dtype).max)
+                if top < 2**32 and rnd.random() < 0.5 and node not in nodes:
+                    node = top + rnd.randint(1, 5)
+                    bad_pixels = "label_beyond_dtype"
+                else:
+                    ax = rnd.randint(1, len(pixels) - 1)
+                    k = rnd.randint(0, len(pixels[ax]) - 1)
+                    pixels[ax][k] = world.shape[ax - 1] + rnd.randint(0, 2)
+                    bad_pixels = "out_of_bounds"
+    op = {"op": "add_node", "node": node, "attrs": attrs, "pixels": pixels,
+          "force": rnd.random() < 0.45}
+    if bad_pixels:
+        op["bad_pixels"] = bad_pixels
+        op["force"] = rnd.random() < 0.75
+    return op
 
 
 def _gen_paint(world, rnd, bad=False) -> dict:
@@ -797,6 +849,12 @@ def _gen_paint(world, rnd, bad=False) -> dict:
         value = _pick(rnd, in_frame)
     else:
         value = _unused_node_id(world, rnd)
+        top = int(np.iinfo(seg.dtype).max)
+        if value > top:
+            # a label layer cannot hold (so a GUI cannot paint) a value beyond its dtype
+            used = set(world.nodes())
+            free = [i for i in range(top, max(top - 400, 0), -1) if i not in used]
+            value = _pick(rnd, free[:20]) if free else 0
     op = {"op": "paint", "time": t, "pixels": [a.tolist() for a in idx], "value": int(value),
           "track_id": _gen_track_id(world, rnd), "force": rnd.random() < 0.45,
           "order": rnd.choice(["asc", "desc"])}
@@ -907,7 +965,7 @@ def masks_defined(world: World, op: dict) -> bool:
     seg = world.tracks.segmentation
     sp = world.spacing()
     if op["op"] == "add_node":
-        if op.get("pixels") is None:
+        if op.get("pixels") is None or op.get("bad_pixels"):
             return True
         m = np.zeros(world.shape, dtype=bool)
         m[tuple(np.asarray(a) for a in op["pixels"][1:])] = True
@@ -1018,6 +1076,8 @@ def _gen_ctrl_add_nodes(world: World, rnd):
     rnd.shuffle(frames)
     frames = frames[:k]
     top = max(world.nodes() + [0])
+    if top + k > int(np.iinfo(tr.segmentation.dtype).max):
+        return None
     nxt = int(tr.get_next_track_id())
     ids, tids, pix = [], [], []
     for i, t in enumerate(frames):
